@@ -19,8 +19,8 @@ RULE = (
     "the object has >=2 children holding different materials."
 )
 TOLERANCES = {"additivity_rel": 1e-10, "readback_rel": 1e-10, "unchanged_rel": 1e-12, "massfrac_sum_abs": 1e-10, "inverse_rel": 1e-12}
-FLOORS = {"quick": {"ledger.block": 3000, "ledger.assembly": 300, "ledger.core": 40, "readback": 2000, "others-unchanged": 1000, "massfrac": 300, "densityTools": 500, "selection": 1000},
-          "thorough": {"ledger.block": 60000, "ledger.assembly": 6000, "ledger.core": 800, "readback": 40000, "others-unchanged": 20000, "massfrac": 6000, "densityTools": 10000, "selection": 20000}}
+FLOORS = {"quick": {"ledger.block": 3000, "ledger.assembly": 300, "ledger.core": 40, "edit.block-symmetry-factor-3": 20, "readback": 2000, "others-unchanged": 1000, "massfrac": 300, "densityTools": 500, "selection": 1000},
+          "thorough": {"ledger.block": 60000, "ledger.assembly": 6000, "ledger.core": 800, "edit.block-symmetry-factor-3": 400, "readback": 40000, "others-unchanged": 20000, "massfrac": 6000, "densityTools": 10000, "selection": 20000}}
 AVOGADRO_FACTOR = None  # taken from armi.utils.units at run time (a constant of nature, not code under test)
 
 
@@ -308,7 +308,12 @@ def do_edit(rec, rng, obj, level, w):
             rec.hit("readback")
             got = obj.getMass(nuc)
             if not rc(got, exp, 1e-9, 1e-30):
-                rec.violation("readback/%s/%s" % (op, level), "%s(%s,%r): mass %r -> %r, expected %r" % (op, nuc, m, m0, got, exp), w)
+                cut = ""
+                if isinstance(obj, Component) and obj.parent is not None and obj.parent.getSymmetryFactor() != 1.0:
+                    # component-level mass setters convert with the full component volume while Component.getMass reports the
+                    # share inside the model (volume / symmetry factor of the block)
+                    cut = "-in-symmetry-cut-block"
+                rec.violation("readback/%s/%s%s" % (op, level, cut), "%s(%s,%r): mass %r -> %r, expected %r" % (op, nuc, m, m0, got, exp), w)
             others_unchanged({nuc}, after)
         elif op in ("setMassFrac", "setMassFracs"):
             if isinstance(obj, Component) and False:
@@ -506,6 +511,13 @@ def do_cores(spec, rec, rng0):
             hist.append(op)
             check_ledger(rec, core, "core", dict(w, history=hist), rng=rng)
             centre = core.childrenByLocator.get(core.spatialGrid[0, 0, 0])
+            if centre is not None and len(centre):
+                # blocks cut by symmetry lines (factor 3 at the centre of a third core): edit them directly every step
+                cb = rng.choice(list(centre))
+                fac = cb.getSymmetryFactor()
+                rec.hit("edit.block-symmetry-factor-%g" % fac)
+                hist.append("centre-b(sym %g):" % fac + do_edit(rec, rng, cb, "block", dict(w, history=hist, symmetryFactor=fac)))
+                hist.append("centre-c:" + do_edit(rec, rng, rng.choice(list(cb)), "component", dict(w, history=hist, symmetryFactor=fac)))
             if centre is not None:
                 check_ledger(rec, centre, "assembly", dict(w, history=hist, which="centre"), rng=rng)
                 check_ledger(rec, centre[0], "block", dict(w, history=hist, which="centre"), rng=rng)
